@@ -117,6 +117,16 @@ var userFuns = map[string]func() *val.Val{
 			return val.Bool(!args[0].Bool().V)
 		})
 	},
+	// keeps its argument slice alive in the result, as the built-in set functions do
+	"U_PAIR": func() *val.Val {
+		ln := types.List(types.Num)
+		return val.Fun(types.Fun("pair", []*types.Type{types.Num, types.Num}, ln), func(args ...*val.Val) *val.Val {
+			logCall("U_PAIR", args)
+			l := val.List(ln.List(), 0).List()
+			l.V = args
+			return l.Vl()
+		})
+	},
 	"U_GPOLY": func() *val.Val {
 		a := types.TyVar("a")
 		return val.Fun(types.Fun("g", []*types.Type{a}, types.Num), func(args ...*val.Val) *val.Val {
